@@ -352,6 +352,10 @@ def correspondence(ctx):
     ctx.obligation("corr:csr-triples-equal-model", not out_bad, "cases %s" % out_bad[:8], n=max(1, len(ids)))
     ctx.obligation("corr:impl-cache-entries-are-fresh-maps", not cache_bad, "cases %s" % cache_bad[:8], n=max(1, len(ids)))
     ctx.cov["cache_keyset_differs_from_model_cases"] = keyset_diff
+    unreadable = sum(results[i].get("cache_unreadable", 0) for i in ids)
+    ctx.obligation("corr:impl-cache-layout-readable", unreadable == 0, "%d cache entries with an unexpected key/value layout" % unreadable)
+    if unreadable and not bad_impl:
+        ctx.violation("corr:cache-layout", "the private reduction-map cache no longer has the key layout (dof_n, isMatrix, Ndof, groups): the cache-soundness tie cannot be checked", {}, found_input=False)
     already = {c for c, _, _ in bad_impl}
     for i in (out_bad + cache_bad)[:3]:
         if i in already:
